@@ -131,7 +131,7 @@ class _DateTimeZoneWriter(_IDateTimeZoneWriter):
 
         # TODO: unchecked
 
-        if _csharp_modulo(millis, 30 * PyodaConstants.MILLISECONDS_PER_MINUTE) == 30:
+        if _csharp_modulo(millis, 30 * PyodaConstants.MILLISECONDS_PER_MINUTE) == 0:
             units: int = _towards_zero_division(millis, 30 * PyodaConstants.MILLISECONDS_PER_MINUTE)
             self.write_byte(units)
         elif _csharp_modulo(millis, PyodaConstants.MILLISECONDS_PER_MINUTE) == 0:
